@@ -234,11 +234,14 @@ def responderComponent : Component where
       match getBounded (fields rest) "ssrc" 4294967296 with
       | some ssrc => (some (r.unbind ssrc), [])
       | none => (s, ["bad-op"])
-    | ["close"], some r => (some r.close, [])
+    | ["close"], some r =>
+      if r.closeWaiting then (s, ["busy"])
+      else if r.pending.isSome then (some r.close, ["close-blocked"])   -- Close waits for the held resend
+      else (some r.close, [])
     | ["hold"], some r => (some { r with hold := true }, [])
     | ["resume"], some r =>
       let (r', outs) := r.resume
-      (some r', showOuts "rtx" outs)
+      (some r', showOuts "rtx" outs ++ (if r.closeWaiting then ["close-waited=true late=0"] else []))
     | _, _ => (s, ["bad-op"])
 
 def components : List (String × Component) :=
